@@ -77,6 +77,12 @@ def candidates(key, model, budget_s):
 
     names = list(c.params)
     types = {n: parse_type(t) for n, t in c.params.items()}
+    # the declared parameter types are part of the precondition: the exhaustive phase is made only for functions
+    # whose parameters it can enumerate (or for which the model supplies a value)
+    for n in names:
+        if types[n] not in (('str',), ('ref', 'Scanner'), ('int',), ('bool',)) and model.get(n) is None:
+            if not (types[n][0] == 'union' and ('none',) in types[n][1]):
+                return iter(())
 
     def gen(i, acc):
         if i == len(names):
